@@ -176,6 +176,7 @@ struct World {
     std::unique_ptr<ConcurrentSubjectRouter> ctrl;   // a second, independent router: its observer performs operations on `router`
     std::unique_ptr<USubscription> ctrl_sub;
     std::vector<std::unique_ptr<USubscription>> subs;
+    std::vector<RoutingKey> shared_keys;   // const keys built once by the controller and used by several threads at the same time
     int cb_yields = 0;
 };
 World* W = nullptr;
@@ -202,6 +203,17 @@ void ctrl_callback() {  // runs inside a delivery of the OTHER router (holding o
     if (op) do_op(*op, id);
 }
 
+// the key of an operation: either built on the spot or one of the shared, pre-built key objects
+struct KeyRef {
+    std::unique_ptr<RoutingKey> own;
+    const RoutingKey* k;
+    explicit KeyRef(const Json& op) {
+        if (op.get("sk", 0) && (size_t)op.get("ski", 0) < W->shared_keys.size()) k = &W->shared_keys[(size_t)op.get("ski", 0)];
+        else { own = std::make_unique<RoutingKey>(build_key(pattern_of(op.at("pat")))); k = own.get(); }
+    }
+    const RoutingKey& get() const { return *k; }
+};
+
 void do_op(const Json& op, int opid) {
     const std::string& t = op.at("op").s;
     if (op.get("via_ctrl", 0) && W->ctrl) {
@@ -217,7 +229,8 @@ void do_op(const Json& op, int opid) {
     }
     sim::set_tag(opid);
     if (t == "notify") {
-        RoutingKey k = build_key(pattern_of(op.at("pat")));
+        KeyRef kr(op);
+        const RoutingKey& k = kr.get();
         sim::ev(E_ISSUE, opid, O_NOTIFY);
         size_t n = W->router->notify(k);
         sim::ev(E_RET, opid, (int)n);
@@ -234,12 +247,14 @@ void do_op(const Json& op, int opid) {
         (*W->subs[o])->unsubscribe();
         sim::ev(E_RET, opid, 0);
     } else if (t == "shrink") {
-        RoutingKey k = build_key(pattern_of(op.at("pat")));
+        KeyRef kr(op);
+        const RoutingKey& k = kr.get();
         sim::ev(E_ISSUE, opid, O_SHRINK);
         W->router->shrink(k);
         sim::ev(E_RET, opid, 0);
     } else if (t == "exists") {
-        RoutingKey k = build_key(pattern_of(op.at("pat")));
+        KeyRef kr(op);
+        const RoutingKey& k = kr.get();
         sim::ev(E_ISSUE, opid, O_EXISTS);
         bool e = W->router->exists(k);
         sim::ev(E_RET, opid, e);
@@ -257,6 +272,10 @@ void body(const Json& prog) {
     w.router = std::make_unique<ConcurrentSubjectRouter>();
     w.subs.resize((size_t)prog.get("nobs", 0));
     w.cb_yields = (int)prog.get("cb_yields", 1);
+    if (prog.has("shared")) {
+        w.shared_keys.reserve(prog.at("shared").size());
+        for (auto& pj : prog.at("shared").a) w.shared_keys.push_back(build_key(pattern_of(pj)));
+    }
     if (prog.get("two_routers", 0)) {
         w.ctrl = std::make_unique<ConcurrentSubjectRouter>();
         w.ctrl_sub = std::make_unique<USubscription>(w.ctrl->subscribe(RoutingKeyBuilder{}.level("c").build(), [] { ctrl_callback(); }));
@@ -547,6 +566,21 @@ void generate(sim::Rng& g, const std::string& prop, const std::string& tier, Jso
         }
         threads.push(ops);
     }
+    // some notify/shrink/exists operations use a key OBJECT that is shared between threads (same pattern -> same object)
+    {
+        Json shared = Json::array();
+        std::vector<std::string> seen;
+        for (auto& t : threads.a)
+            for (auto& op : t.a) {
+                const std::string& o = op.at("op").s;
+                if ((o != "notify" && o != "shrink" && o != "exists") || g.below(2)) continue;
+                std::string d = op.at("pat").dump();
+                size_t idx = std::find(seen.begin(), seen.end(), d) - seen.begin();
+                if (idx == seen.size()) { seen.push_back(d); shared.push(op.at("pat")); }
+                op.set("sk", 1).set("ski", (int)idx);
+            }
+        program.set("shared", shared);
+    }
     program.set("nobs", nobs).set("cb_yields", g.range(0, 3)).set("init", init).set("threads", threads);
     drv::draw_sched(g, cfg, true, 40 + 30 * total);
     cfg.step_cap = 30000;
@@ -570,6 +604,7 @@ std::string describe(const Json& p) {
         std::string s = op.at("op").s;
         if (op.has("obs")) s += std::to_string(op.at("obs").num());
         if (op.has("pat")) s += pat_str(pattern_of(op.at("pat")));
+        if (op.get("sk", 0)) s += "#k" + std::to_string(op.get("ski", 0));
         if (op.get("via_ctrl", 0)) s = "viaCtrl(" + s + ")";
         return s;
     };
